@@ -369,6 +369,21 @@ def run(ctx):
             if len(donors_pool) > 6:
                 donors_pool.pop(0)
 
+    # human-written inputs (tests and documentation of the repository), shard 0
+    if ctx.shard == 0:
+        from .. import corpus
+
+        for level, prs in (('property', PP), ('condition', PC), ('expression', PE)):
+            for origin, text in corpus.accepted(level):
+                o = hplapi.outcome(prs.parse, text)
+                if o[0] != 'ok' or not hasattr(type(o[1]), '__attrs_attrs__'):
+                    continue
+                if level != 'property' and S.power_bomb(o[1]):
+                    continue
+                ctx.count('corpus_asts')
+                for _ in range(3):
+                    run_sequence(o[1], None, text, {'shape:corpus', 'shape:' + level}, None)
+
     # equality and hashing ignore metadata (properties parsed with different annotations)
     for n in range(min(200, n_asts)):
         pg = gen.PropGen(rng, maxdepth=1, max_width=2)
